@@ -81,18 +81,24 @@ class EventDispatcher:
         """
         assert isinstance(handler, EventHandler)
 
+        # Resolve all the callbacks first: if one is missing nothing is
+        # registered at all
+        callbacks = tuple(
+            (event_name, getattr(handler.__class__, method_name))
+            for event_name, method_name in handler.__events__.items())
+
+        # An earlier registration is replaced (the handler's mapping may
+        # have changed meanwhile), never duplicated
+        self._remove_weak_handler(_HandlerRef(handler))
+
         # Populate _events
         handler_ref = _HandlerRef(handler, self._remove_weak_handler)
-        for event_name, method_name in handler.__events__.items():
-            self._events.setdefault(event_name, set()).add(
-                (handler_ref, getattr(handler.__class__, method_name)))
+        for callback in callbacks:
+            self._events.setdefault(callback[0], set()).add(
+                (handler_ref, callback[1]))
 
         # Populate _handlers
-        self._handlers[handler_ref] = \
-            tuple(
-                (event_name, getattr(handler.__class__, method_name))
-                for event_name, method_name in handler.__events__.items()
-        )
+        self._handlers[handler_ref] = callbacks
 
     def is_handler(self, handler: EventHandler) -> bool:
         """Return whether or not a handler is into the dispatcher."""
